@@ -152,6 +152,10 @@ func gen(g *vh.Gen) {
 	for i := 0; i < g.N(45, 1000); i++ {
 		g.Emit("life", genLife(g))
 	}
+	// a session that keeps talking for longer than the idle timeout after Drain was called: Drain keeps waiting
+	g.Emit("lifet", "o0:P,p0:pass,k,DP,b0:1700,DP,f0,DP")
+	g.Emit("lifet", "o0:S,p0:helo,k,DS,b0:1700,DS,f0,DS")
+	g.Emit("lifet", "o0:P,p0:dele,k,b0:1500,DP,b0:600,DP,f0,DP")
 	// POP3 in ForceTLS mode: plain-text clients are dropped without leaking a session count
 	g.Emit("tls", "xP,o0:P,p0:pass,k,DP,f0,DP")
 	g.Emit("tls", "o0:P,p0:dele,xP,xP,k,nP,DP,f0,DP,DS")
